@@ -97,4 +97,43 @@ theorem C05_value_present_iff_not_dead {s : State} (h : Reachable s) (he : s.err
     | zero => simp [Strong.isDead, (this.2.1 hs).1]
     | succ n => simp [Strong.isDead, (this.1 n hs).1]
 
+
+/-- **C05 (the statement itself).** In every reachable state, for every Weak handle the program
+holds: the allocation is readable, and `upgrade` hands out a new strong handle to that same object
+if and only if the object's value has not been destroyed (it is still in place). -/
+theorem C05_upgrade_iff_value_not_destroyed {s : State} (h : Reachable s) (he : s.err = none)
+    (fh fw : List Nat) {w o : Nat} (hw : nthMod s.wroots w = some o) :
+    ∃ ob, s.cell o = some ob ∧
+      ((applyAct s fh fw (.upgrade w)).roots = s.roots ++ [o] ↔ ob.value.isSome = true) := by
+  have hpos : 0 < s.extW o + s.inHeapW o + s.pendW o := by
+    have := State.extW_pos_of_mem_wroots (s := s) (mem_of_nthMod hw)
+    omega
+  have hc := C05_weak_keeps_allocation h he hpos
+  obtain ⟨ob, hcell⟩ := Option.isSome_iff_exists.mp hc
+  refine ⟨ob, hcell, ?_⟩
+  have hiff := C05_value_present_iff_not_dead h he hcell
+  cases hd : ob.strong.isDead with
+  | true =>
+    rw [C05_upgrade_dead_none s fh fw w o ob hw hcell hd]
+    constructor
+    · intro hr
+      have : (s.emit (retBool false)).roots = s.roots := rfl
+      rw [this] at hr
+      have := congrArg List.length hr
+      simp at this
+    · intro hv
+      have := hiff.mp hv
+      rw [hd] at this; cases this
+  | false =>
+    have hv := hiff.mpr hd
+    constructor
+    · intro _; exact hv
+    · intro _
+      cases hs : ob.strong with
+      | uninit => simp [hs, Strong.isDead] at hd
+      | cnt n =>
+        cases n with
+        | zero => simp [hs, Strong.isDead] at hd
+        | succ n => exact (C05_upgrade_live_some s fh fw w o ob n hw hcell hs).1
+
 end Cactus
